@@ -167,7 +167,30 @@ def st_results():
     ])
 
 
-CHEAP = [st_liesel_graph, st_liesel_build]
+def st_var_wiring():
+    from harness import growth_driver as D
+
+    rng = random.Random(6)
+    while True:
+        t = D.wiring_trace(rng, 14, nv=3, kinds=["val", "val", "dist", "dist"])
+        ir = next((i for i, e in enumerate(t["ev"]) if e["rej"] == "one_var"), None)
+        io = next((i for i, e in enumerate(t["ev"]) if e["op"] == "set_dist_node" and e["d"] != 0 and e["rej"] == "none"), None)
+        if ir is not None and io is not None:
+            break
+    cfg = 'CONSTANTS NV = 3 NN = 4 Kind <- Kind4 Names = {""} Atomic = FALSE\n'
+
+    def c1(tr):
+        tr["ev"][ir]["rej"] = "none"
+
+    def c2(tr):
+        tr["ev"][io]["obs"]["at"][tr["ev"][io]["d"] - 1] = 0
+    return _run("VarWiring", "Trace_VarWiring.tla", t, [
+        ("rejected setter reported as accepted", c1, ir + 1, "rejected_iff_spec_rejects"),
+        ("dist node not evaluated at its var", c2, io + 1, "dist_at_points_to_var_value"),
+    ], cfg_extra=cfg)
+
+
+CHEAP = [st_liesel_graph, st_liesel_build, st_var_wiring]
 ALL = CHEAP + [st_mh, st_da, st_engine, st_results]
 
 
